@@ -3,6 +3,7 @@ import ShVerif.Proofs.C16
 import ShVerif.Proofs.C16b
 import ShVerif.Proofs.C16c
 import ShVerif.Proofs.C16d
+import ShVerif.Proofs.C16e
 /-
   C16 — Brace expansion matches bash.  Property theorems.  A statement that is false of the model
   (hence of the Go code: the model is tied to it on every run) is kept as `def …_statement`, with
@@ -140,18 +141,23 @@ theorem pinned_empty_alternative :
 
 /-! ## Equivalence with bash -/
 
-/-- Go side of the equivalence, for every well-formed brace expression tree `t` (nested list
-    groups with ≥ 2 alternatives, valid sequences, literals of ordinary bytes): splitting the
-    *text* of `t` and expanding gives the denotation of `t` — alternatives in order, ideal
-    sequences, left-major products — or the limit error iff it has more than 16384 elements. -/
-theorem expand_canon (t : Word) (hc : canon t = true) :
+/-- Go side of the equivalence, for every well-formed brace expression tree `t` (`canonTop`:
+    nested list groups with ≥ 2 alternatives, valid sequences; literals inside groups of ordinary
+    bytes, top-level literals of any bytes but `{`, backslash, `$`): splitting the *text* of `t` and
+    expanding gives the denotation of `t` — alternatives in order, ideal sequences, left-major
+    products — or the limit error iff it has more than 16384 elements. -/
+theorem expand_canon (t : Word) (hc : canonTop t = true) :
     expand (splitBraces (render t)).1 =
       if count t > limit then .error .limit else .ok (denot t) := by
-  have hd := split_canon_denot t hc
+  have hd := split_canonTop_denot t hc
   rw [expand_spec _ (wf_split _), hd]
   have : count (splitBraces (render t)).1 = count t := by
     rw [← denot_length, ← denot_length, hd]
   rw [this]
+
+/-- Every `canon` tree (the class of the previous version of `bash_equiv_partial`) is `canonTop`. -/
+theorem canon_is_canonTop (t : Word) (h : canon t = true) : canonTop t = true :=
+  canon_canonTop t h
 
 /-- Sequence terms: whenever SplitBraces' validity test accepts `{x..y[..z]}` (endpoints and
     increment of ordinary bytes), bash's `expand_seqterm` reads the same kind, endpoints, padding
@@ -162,9 +168,9 @@ theorem seq_terms_agree (elems : List Word) (hv : seqValid elems = true)
 /-- bash side of the equivalence: on the text of a well-formed tree, bash's `brace_expand`
     (gobbler scans, `expand_amble`, `expand_seqterm`, recursion on pieces and postscript) yields
     the denotation. -/
-theorem bash_canon_denot (t : Word) (hc : canon t = true) :
+theorem bash_canon_denot (t : Word) (hc : canonTop t = true) :
     bashBraces (render t) = denot t :=
-  bash_canon _ t hc (seqsAgree_of_canon t hc) (by omega)
+  bash_canonTop _ t hc (by omega)
 
 /-- `bashCount` really is the number of words bash produces — for every byte string. -/
 theorem bashCount_length (w : Bytes) : bashCount w = (bashBraces w).length := bashCount_eq w
@@ -176,11 +182,13 @@ def bash_equiv_statement : Prop :=
     (isLimitErr (expand (splitBraces w).1) = true ↔ bashCount w > limit) ∧
     (bashCount w ≤ limit → expand (splitBraces w).1 = .ok (bashBraces w))
 
-/-- The equivalence holds for the text of every well-formed brace expression tree (`canon`: nested
-    list groups with at least two alternatives, `{x..y[..z]}` sequences that pass the validity
-    test — with any Int64 endpoints and increment —, literals of bytes other than
-    `{ } , . \ $`). -/
-theorem bash_equiv_partial (t : Word) (hc : canon t = true) :
+/-- The equivalence holds for the text of every well-formed brace expression tree (`canonTop`):
+    nested list groups with at least two alternatives, `{x..y[..z]}` sequences that pass the
+    validity test (any Int64 endpoints and increment, letters with a step); literals *inside*
+    groups of bytes other than `{ } , \ $`, with single dots only (every `.` followed by a
+    non-dot byte of the same literal); literals *outside* any group of any bytes other than `{`,
+    backslash and `$` — so `file.{c,h}`, `a,b{1..3}.tar.gz`, `{a.b,.c}` and `x}{a,b}` are covered. -/
+theorem bash_equiv_partial (t : Word) (hc : canonTop t = true) :
     (isLimitErr (expand (splitBraces (render t)).1) = true ↔ bashCount (render t) > limit) ∧
     (bashCount (render t) ≤ limit →
       expand (splitBraces (render t)).1 = .ok (bashBraces (render t))) := by
@@ -193,11 +201,25 @@ theorem bash_equiv_partial (t : Word) (hc : canon t = true) :
   · intro hle
     rw [if_neg (by omega)]
 
+/-- Non-vacuity: `file.{c,h}` and `a,b}{x..z..2}.tar.gz` are such trees. -/
+example :
+    let t : Word := [.lit [102, 105, 108, 101, 46], .brace false [[.lit [99]], [.lit [104]]]]
+    canonTop t = true ∧ render t = [102, 105, 108, 101, 46, 123, 99, 44, 104, 125] := by
+  decide
+example :
+    canonTop [.lit [97, 44, 98, 125], .brace true [[.lit [120]], [.lit [122]], [.lit [50]]],
+      .lit [46, 116, 97, 114, 46, 103, 122]] = true := by
+  decide
+/-- `{a.b,.c}x.y`: dots inside a group. -/
+example :
+    canonTop [.brace false [[.lit [97, 46, 98]], [.lit [46, 99]]], .lit [120, 46, 121]] = true := by
+  decide
+
 /-- Non-vacuity: `a{b,c{1..3}}d{x,}` is such a tree. -/
 example :
     let t : Word := [.lit [97], .brace false [[.lit [98]], [.lit [99], .brace true [[.lit [49]], [.lit [51]]]]],
       .lit [100], .brace false [[.lit [120]], []]]
-    canon t = true ∧
+    canon t = true ∧ canonTop t = true ∧
       render t = [97, 123, 98, 44, 99, 123, 49, 46, 46, 51, 125, 125, 100, 123, 120, 44, 125] := by
   decide
 
